@@ -82,7 +82,82 @@ type ES struct {
 	V int8 `json:"v"`
 }
 
+// Mutually recursive families; the members share a property name (id / label) with different
+// JSON types; pointers are omitempty so that the end of a value encodes no null.
+
+// cycle of length 2 through pointers
+type FA struct {
+	ID    string `json:"id"`
+	Owner *FB    `json:"owner,omitempty"`
+}
+
+type FB struct {
+	ID   int64 `json:"id"`
+	Home *FA   `json:"home,omitempty"`
+}
+
+// length 2 through a struct value, a slice and a pointer
+type ND struct {
+	Label string `json:"label"`
+	Meta  MT     `json:"meta"`
+}
+
+type MT struct {
+	Label   bool `json:"label"`
+	Parents []ND `json:"parents"`
+	Origin  *ND  `json:"origin,omitempty"`
+}
+
+// length 2 through maps only
+type GA struct {
+	ID string        `json:"id"`
+	M  map[string]GB `json:"m"`
+}
+
+type GB struct {
+	ID int8          `json:"id"`
+	N  map[string]GA `json:"n"`
+}
+
+// length 3 through pointers
+type TA struct {
+	ID string `json:"id"`
+	B  *TB    `json:"b,omitempty"`
+}
+
+type TB struct {
+	ID int8 `json:"id"`
+	C  *TC  `json:"c,omitempty"`
+}
+
+type TC struct {
+	ID bool `json:"id"`
+	A  *TA  `json:"a,omitempty"`
+}
+
+// length 3 through a slice, a map and a pointer
+type UA struct {
+	ID string `json:"id"`
+	Bs []UB   `json:"bs"`
+}
+
+type UB struct {
+	ID int8          `json:"id"`
+	Cm map[string]UC `json:"cm"`
+}
+
+type UC struct {
+	ID bool `json:"id"`
+	A  *UA  `json:"a,omitempty"`
+}
+
 var c18Named = map[string]reflect.Type{
+	"FA": reflect.TypeOf(FA{}), "FB": reflect.TypeOf(FB{}),
+	"ND": reflect.TypeOf(ND{}), "MT": reflect.TypeOf(MT{}),
+	"GA": reflect.TypeOf(GA{}), "GB": reflect.TypeOf(GB{}),
+	"TA": reflect.TypeOf(TA{}), "TB": reflect.TypeOf(TB{}), "TC": reflect.TypeOf(TC{}),
+	"UA": reflect.TypeOf(UA{}), "UB": reflect.TypeOf(UB{}), "UC": reflect.TypeOf(UC{}),
+
 	"N1":      reflect.TypeOf(N1{}),
 	"N2":      reflect.TypeOf(N2{}),
 	"RPtr":    reflect.TypeOf(RPtr{}),
